@@ -117,7 +117,11 @@ CLAIMED = {
           "printer model's text as the printer's token image - completeness lemmas for every token shape (operators by greedy prefix extension, words, names with "
           "the call look-ahead, numbers through the decimal print/read round trip, strings, separators) composed along the printer's layout by induction over the "
           "tree. Lemma (B): parsing that token image gives back the tree (C12_round_trip_tokens). Proving (A) exposed defect D22 (operator words before , ; :), "
-          "repaired by fix c0513cb. AN ACCEPTED PROGRAM'S RENDERING IS ACCEPTED (C12_rendering_of_an_accepted_spelling_reparses, Lemmas/RoundTrip.v + "
+          "repaired by fix c0513cb. THE ROUND TRIP FOR EVERYTHING parse_expression ACCEPTS (C12_round_trip_of_every_accepted_text): for every table "
+          "passing two computable checks (the built-in one does), api_parse s = Ok t and lexically sane leaves give api_parse (expr t) = Ok t and idempotence - "
+          "no premise about nesting, height or well-formedness is left, because every tree the parser returns has an accepted spelling within the nesting "
+          "limit (Lemmas/PrattComplete.v, the converse of the Pratt round trip, by induction over the parser's eight functions) and the printer needs the "
+          "least nesting of all spellings. AN ACCEPTED PROGRAM'S RENDERING IS ACCEPTED (C12_rendering_of_an_accepted_spelling_reparses, Lemmas/RoundTrip.v + "
           "LeastNesting.v): for every table, every tree and EVERY spelling p of it that the grammar accepts (any redundant parentheses, `not (x OP y)`) "
           "within the nesting limit, the tokens - and for lexically sane trees the text - that the printer writes are parsed back to the tree, because the "
           "printer's parenthesisation needs the least nesting of all spellings (C12_printer_needs_least_nesting); this was false before fixes f0353e2 "
